@@ -13,7 +13,7 @@ import ast
 import z3
 
 from pyvc.unit import Unit, NotGenerated
-from pyvc.values import (QAll, QEx, VInt, VStr, VSeq, VBool, VObj, VPy, STR, I, B, OBJ, strlen, charat, fresh, fresh_val, seq_read)
+from pyvc.values import (QAll, QEx, VInt, VStr, VSeq, VBool, VObj, VOpt, VRec, VPy, STR, I, B, OBJ, strlen, charat, fresh, fresh_val, seq_read)
 from .shapes import RANGE, RECORDS
 from .c_core_range import and_ as range_and, OV
 
@@ -338,6 +338,44 @@ def _re_findall(eng, args, kw, env, pc, node):
     return out
 
 
+AT = 64
+gapchar = z3.Function("at_gap_char", I, B)
+at_pos = z3.Function("at_search_pos", STR, I)
+
+
+def _gap_axioms(eng):
+    eng.axioms_once(("gapchar",), z3.And(gapchar(32), gapchar(40), gapchar(92), gapchar(10), gapchar(9), z3.Not(gapchar(AT))))
+
+
+def _re_search_at(eng, args, kw, env, pc, node):
+    """re.search(r"@[\\s(\\\\]*\\Z", s): the match, if any, starts at the last '@' of s and everything after it is white space,
+    '(' or a backslash (`at_gap_char`, uninterpreted beyond the characters named in `_gap_axioms`); there is a match when s
+    ends with '@'.  Assumed contract of `re` for this one literal pattern."""
+    from pyvc.engine import Undecided
+    pat, s = args
+    if not isinstance(pat, VStr) or pat.lit != "@[\\s(\\\\]*\\Z":
+        raise Undecided(f"re.search with pattern {getattr(pat, 'lit', None)!r}")
+    _gap_axioms(eng)
+    k = z3.Int("k!at")
+    n = strlen(s.t)
+    p = at_pos(s.t)
+    eng.axioms_once(("at_pos", str(s.t)), z3.And(
+        -1 <= p, p < z3.If(n > 0, n, 0),
+        z3.Implies(p >= 0, z3.And(charat(s.t, p) == AT, QAll([k], z3.Implies(z3.And(p < k, k < n), gapchar(charat(s.t, k)))))),
+        z3.Implies(z3.And(n > 0, charat(s.t, n - 1) == AT), p == n - 1)))
+    eng.assumptions.add("assumed contract: re.search(r'@[\\s(\\\\]*\\Z', s) matches at the last '@' of s when only white space, '(' and backslashes follow it")
+    return VOpt(p < 0, VRec("Match", {"pos": VInt(p)}))
+
+
+def _match_start(eng, args, kw, env, pc, node):
+    return args[0].fields["pos"]
+
+
+def g_gap(eng, args, kw, env, pc, node):
+    _gap_axioms(eng)
+    return VBool(gapchar(args[0].t))
+
+
 def _decorated(eng, e, env, pc):
     """match_template(node, ast.AST(decorator_list=list)): node has a list-valued decorator_list attribute"""
     node = eng.ev(e.args[0], env, pc)
@@ -406,14 +444,25 @@ charnos_tail = Unit(
         ("inside-source", "0 <= result.start and result.start <= result.end and result.end <= len(source)"),
         ("point-range-when-no-end", "implies(not (hasattr(node, 'end_lineno') and node.end_lineno is not None), result.start == s0(start) and result.end == s0(start))"),
         ("end-at-most-node-end", "implies(hasattr(node, 'end_lineno') and node.end_lineno is not None, result.end <= e0(node))"),
-        ("start-at-least-node-start-minus-at", "implies(hasattr(node, 'end_lineno') and node.end_lineno is not None and not keep_first_indent, result.start >= s0(start) - 1)"),
-        ("start-is-node-start", "implies(hasattr(node, 'end_lineno') and node.end_lineno is not None and not keep_first_indent and s0(start) < e0(node) and source[s0(start)] != ' '"
-         " and not (s0(start) > 0 and source[s0(start) - 1] == '@' and isinstance(node, (ast.ClassDef, ast.FunctionDef, ast.AsyncFunctionDef))), result.start == s0(start))"),
-        ("end-is-node-end", "implies(hasattr(node, 'end_lineno') and node.end_lineno is not None and s0(start) < e0(node) and source[e0(node) - 1] != ' ', result.end == e0(node))"),
-        ("no-trailing-space", "implies(hasattr(node, 'end_lineno') and node.end_lineno is not None and result.start < result.end and not keep_first_indent, source[result.end - 1] != ' ')"),
+        ("start-moves-left-only-onto-an-at-sign", "implies(has_end(node) and not keep_first_indent and result.start < s0(start),"
+         " source[result.start] == '@' and isdef(node) and start is not node"
+         " and forall(lambda k: implies(result.start < k and k < s0(start), gap(source[k]))))"),
+        ("start-is-node-start", "implies(has_end(node) and not keep_first_indent and s0(start) < e0(node) and (source[s0(start)] != ' ' or is_string(node))"
+         " and not (isdef(node) and start is not node), result.start == s0(start))"),
+        ("at-sign-directly-before-is-included", "implies(has_end(node) and not keep_first_indent and s0(start) < e0(node) and source[s0(start)] != ' '"
+         " and isdef(node) and start is not node and s0(start) > 0 and source[s0(start) - 1] == '@', result.start == s0(start) - 1)"),
+        ("decorated-start-not-right-of-trimmed-start", "implies(has_end(node) and not keep_first_indent and s0(start) < e0(node) and source[s0(start)] != ' ', result.start <= s0(start))"),
+        ("end-is-node-end", "implies(has_end(node) and s0(start) < e0(node) and (source[e0(node) - 1] != ' ' or is_string(node)), result.end == e0(node))"),
+        ("no-trailing-space", "implies(has_end(node) and s0(start) < e0(node) and result.start < result.end and not keep_first_indent and not is_string(node), source[result.end - 1] != ' ')"),
+        ("string-constants-keep-their-spaces", "implies(has_end(node) and is_string(node) and not keep_first_indent, result.start == s0(start) and result.end == e0(node))"),
     ],
-    calls={"_get_position": ("contract", get_position2), "re.findall": _re_findall, "_get_charno": ("contract", get_charno_summary)},
-    ghost=dict(TEXT_GHOST, charpos=g_charpos, **WF), attrs=NODE_ATTRS, records=REC, props=("C13", "C04"),
+    calls={"_get_position": ("contract", get_position2), "re.findall": _re_findall, "re.search": _re_search_at, "Match.start": _match_start,
+           "_get_charno": ("contract", get_charno_summary)},
+    ghost=dict(TEXT_GHOST, charpos=g_charpos, gap=g_gap,
+               has_end="lambda n: hasattr(n, 'end_lineno') and n.end_lineno is not None",
+               isdef="lambda n: isinstance(n, (ast.ClassDef, ast.FunctionDef, ast.AsyncFunctionDef))",
+               is_string="lambda n: isinstance(n, ast.Constant) and isinstance(n.value, str)", **WF),
+    attrs=dict(NODE_ATTRS, value="obj"), records=REC, props=("C13", "C04"),
     exc_mode={"IndexError": "oblige", "TypeError": "oblige", "ValueError": "oblige"},
 )
 charnos_tail.key_suffix = "offsets"
@@ -433,7 +482,8 @@ charnos_tail.ghost["leading_lt"] = g_leading_lt
 charnos_head = Unit(
     "core", "get_charnos", slice=slice_charnos_head,
     params={"node": "obj", "source": "str"},
-    requires=[("decorators-have-positions", "forall(lambda k: implies(0 <= k and k < len(node.decorator_list), hasattr(node.decorator_list[k], 'end_lineno') and node.decorator_list[k].end_lineno is not None"
+    requires=[("only-definitions-have-a-decorator-list", "iff(match_template(node, ast.AST(decorator_list=list)), isinstance(node, (ast.ClassDef, ast.FunctionDef, ast.AsyncFunctionDef)))"),
+              ("decorators-have-positions", "forall(lambda k: implies(0 <= k and k < len(node.decorator_list), hasattr(node.decorator_list[k], 'end_lineno') and node.decorator_list[k].end_lineno is not None"
                " and hasattr(node.decorator_list[k], 'end_col_offset') and node.decorator_list[k].end_col_offset is not None))")],
     ensures=[
         ("line-starts-by-contract", "len(line_start_charnos) == nl(source)"),
